@@ -1,4 +1,5 @@
 import Rare.Proofs.C13Main
+import Rare.Proofs.C13Algo
 import Rare.Gen.C13
 /-!
 # C13 – Output ordering is a deterministic function of the aggregated data
@@ -330,6 +331,19 @@ theorem switches_match_source :
   decide
 
 /-! ## non-vacuity -/
+
+/-- The assumed `sort.Sort` contract is satisfiable: insertion sort, written as a comparison tree,
+meets it – so `perm_invariant`, `perm_invariant_partial` and `sort_result` are not vacuous. -/
+theorem sort_contract_satisfiable : SortContract (isortA (α := NV)) := isortA_contract
+
+/-- `perm_invariant` instantiated: numeric, reversed, three rows, two arrival orders. -/
+example (o : Oracle) :
+    (Algo.run (finalSorter o sortSets .numeric true).cmp (finalSorter o sortSets .numeric true).init
+        (isortA [⟨asc "10", 1⟩, ⟨asc "1a", 2⟩, ⟨asc "2", 3⟩])).1
+    = (Algo.run (finalSorter o sortSets .numeric true).cmp (finalSorter o sortSets .numeric true).init
+        (isortA [⟨asc "2", 3⟩, ⟨asc "10", 1⟩, ⟨asc "1a", 2⟩])).1 :=
+  (perm_invariant o sortSets .numeric (Or.inr (Or.inl rfl)) true isortA sort_contract_satisfiable
+    [⟨asc "10", 1⟩, ⟨asc "1a", 2⟩, ⟨asc "2", 3⟩] _ _ (by decide) (List.Perm.refl _) (by decide)).1
 
 /-- keys with two spellings of one number, a non-number and NaN: all hypotheses of the order theorems hold -/
 example : OrderOn (· ∈ [asc "10", asc "1a", asc "2", asc "1.0", asc "1"]) (byNameSmart (fun _ => .err)) :=
